@@ -404,7 +404,7 @@ func main() {
 							continue
 						}
 						lim := limitFor(e.pkg, mode)
-						lens := []int{lim - 1, lim, lim + 1, 10 * lim, 2*lim + 3}
+						lens := []int{lim - 2, lim - 1, lim, lim + 1, lim + 2, lim + 3, lim + 4, 10 * lim, 2*lim + 3}
 						if lim == 0 {
 							lens = []int{defaults[e.pkg] + 1, 10 * defaults[e.pkg], 100000}
 						}
